@@ -1243,6 +1243,61 @@ func scanRecProgress(c *core.Ctx) []ob {
 					})
 					return true
 				})
+				if !tested {
+					// k comes from a helper of the package that only returns it without an error when it is non-zero
+					// (`k, err = room(w, …)` with `if k = …; k != 0 { return k, nil }` … `return 0, err`)
+					ast.Inspect(fd.Body, func(y ast.Node) bool {
+						as, ok := y.(*ast.AssignStmt)
+						if !ok || as.Pos() >= call.Pos() || len(as.Rhs) != 1 || len(as.Lhs) < 1 || identObj(info, as.Lhs[0]) != kobj {
+							return true
+						}
+						hc, ok := unparen(as.Rhs[0]).(*ast.CallExpr)
+						if !ok {
+							return true
+						}
+						hf := calleeFunc(info, hc)
+						if hf == nil || hf.Pkg() != pk.Types {
+							return true
+						}
+						for _, f2 := range pk.Syntax {
+							for _, d2 := range f2.Decls {
+								hd, ok := d2.(*ast.FuncDecl)
+								if !ok || hd.Body == nil || info.Defs[hd.Name] != types.Object(funcOrigin(hf)) {
+									continue
+								}
+								// every return of the helper with a nil error returns a value tested non-zero just before
+								okAll, any := true, false
+								pmH := parentMap(hd.Body)
+								ast.Inspect(hd.Body, func(z ast.Node) bool {
+									ret, ok := z.(*ast.ReturnStmt)
+									if !ok || len(ret.Results) < 2 {
+										return true
+									}
+									if !isNilIdent(ret.Results[len(ret.Results)-1]) {
+										return true // failing return
+									}
+									any = true
+									guarded := false
+									for _, h := range holdsAt(pmH, ret) {
+										if be, ok := unparen(h.cond).(*ast.BinaryExpr); ok && h.pos && be.Op == token.NEQ {
+											if tv, ok := info.Types[be.Y]; ok && tv.Value != nil && tv.Value.ExactString() == "0" && exprString(be.X) == exprString(ret.Results[0]) {
+												guarded = true
+											}
+										}
+									}
+									if !guarded {
+										okAll = false
+									}
+									return true
+								})
+								if any && okAll {
+									tested = true
+								}
+							}
+						}
+						return true
+					})
+				}
 				if tested {
 					out = append(out, okOb("RECPROGRESS", key, c.Rel(call.Pos()), "the chunk size is tested against zero before recursing", true))
 				} else {
